@@ -135,6 +135,10 @@ pub struct E2eCase {
     /// with a configuration file: 0 = both filters in the file, 1 = the df filter on the command line, 2 = the
     /// aircraft filter on the command line
     pub split: u8,
+    /// number of Beast sources every frame is heard by (1, or 9-13: the merged record then carries that many receptions)
+    pub sources: u8,
+    /// run without --verbose (nothing printed): the filters still decide what enters the stored history
+    pub quiet: bool,
 }
 
 pub fn e2e_scenario(c: &E2eCase) -> crate::e2e::Scenario {
@@ -142,19 +146,21 @@ pub fn e2e_scenario(c: &E2eCase) -> crate::e2e::Scenario {
     // an empty list can only be written in a configuration file
     let via_config = c.via_config || matches!(&c.df_filter, Some(l) if l.is_empty()) || matches!(&c.ac_filter, Some(l) if l.is_empty());
     crate::e2e::Scenario {
-        references: vec![None],
-        sends: c.frames.iter().enumerate().map(|(i, f)| {
+        references: vec![None; c.sources.max(1) as usize],
+        sends: c.frames.iter().enumerate().flat_map(|(i, f)| {
             let mut fr = frame_of(f);
             if f.undecoded && fr.len() == 14 {
                 fr[13] ^= 0x01; // DF17/18 with a broken parity, or an AP frame of another aircraft: see expectation below
             }
-            crate::e2e::Send { source: 0, frame: fr, pause_ms: (i % 3) as u32, cut: if i % 4 == 1 { 5 + i % 11 } else { 0 }, clock_offset_s: None }
+            let n = c.sources.max(1) as usize;
+            (0..n).map(move |j| crate::e2e::Send { source: j, frame: fr.clone(), pause_ms: if j + 1 == n { (i % 3) as u32 } else { 0 }, cut: if i % 4 == 1 && n == 1 { 5 + i % 11 } else { 0 }, clock_offset_s: None })
         }).collect(),
         df_filter: c.df_filter.as_ref().map(|v| v.iter().map(|n| if *n == 0 { first.df as u16 } else { other_df(first.df, *n).parse().unwrap_or(17) }).collect()),
         aircraft_filter: c.ac_filter.as_ref().map(|v| v.iter().map(|n| if *n == 0 { first.addr } else { other_addr(first.addr, *n) }).collect()),
-        dedup_ms: 60,
+        dedup_ms: if c.sources > 1 { 150 } else { 60 },
         update_position: false,
-        with_file: c.with_file,
+        quiet: c.quiet && c.sources <= 1,
+        with_file: c.with_file && !c.quiet,
         via_config,
         split: c.split,
         long_table: false,
@@ -211,6 +217,34 @@ pub fn judge_e2e(sc: &crate::e2e::Scenario, out: &crate::e2e::Outcome, rep: &Val
         }
         Ok(())
     };
+    if sc.quiet {
+        // nothing is printed; the stored history of the tracked aircraft must hold exactly as many records as kept
+        // extended squitters / Comm-B replies of that aircraft were sent (frames are distinct, one source)
+        for (addr, hist) in &out.tracks {
+            let icao = format!("{addr:06x}");
+            let mut expected = 0usize;
+            let mut seen = std::collections::BTreeSet::new();
+            for s in &sc.sends {
+                if !seen.insert(s.frame.clone()) || !want.get(&hex::encode(&s.frame)).copied().unwrap_or(false) {
+                    continue;
+                }
+                if let Ok(m) = Message::try_from(s.frame.as_slice()) {
+                    let js = serde_json::to_value(&m).map_err(|e| fail("json", e.to_string()))?;
+                    if js["icao24"] == icao.as_str() && matches!(js["df"].as_str(), Some("17") | Some("18") | Some("20") | Some("21")) {
+                        expected += 1;
+                    }
+                }
+            }
+            if sc.history_expire == Some(0) {
+                expected = 0;
+            }
+            let have = hist.as_array().map(|a| a.len()).unwrap_or(0);
+            if have != expected {
+                return Err(fail("history-differs-from-kept-records", format!("without --verbose: /track?icao24={icao} holds {have} records; {expected} extended-squitter / Comm-B records of that aircraft pass df filter {:?} and aircraft filter {:?}", sc.df_filter, sc.aircraft_filter.as_ref().map(|v| v.iter().map(|a| format!("{a:06x}")).collect::<Vec<_>>()))));
+            }
+        }
+        return Ok(());
+    }
     judge_lines("stdout", &out.lines)?;
     // the stored history of an aircraft (only extended squitters and Comm-B replies are stored) holds exactly its
     // kept records: compared through the reception time of each record
@@ -259,6 +293,12 @@ pub fn replay_e2e(ctx: &Ctx, env: &crate::e2e::Env, sc: &crate::e2e::Scenario, r
         Err(crate::e2e::Fail::Died(why)) => Err(Failure::new("c11:e2e:jet1090-died", format!("jet1090 {why} (twice)"), rep.clone())),
         Ok(out) => {
             ctx.class("end-to-end scenario judged");
+            if sc.quiet {
+                ctx.class("end-to-end scenario without --verbose (judged through /track)");
+            }
+            if sc.references.len() > 1 {
+                ctx.class("end-to-end scenario heard by 9-13 receivers (records of more than 1024 bytes)");
+            }
             let decides = sc.df_filter.as_ref().map(|l| !l.is_empty()).unwrap_or(false) != sc.aircraft_filter.as_ref().map(|l| !l.is_empty()).unwrap_or(false);
             if decides {
                 ctx.nontrivial(h64(&("e2e", rep.to_string())));
@@ -269,7 +309,7 @@ pub fn replay_e2e(ctx: &Ctx, env: &crate::e2e::Env, sc: &crate::e2e::Scenario, r
 }
 
 fn e2e_case() -> impl Strategy<Value = E2eCase> {
-    (proptest::collection::vec(case(), 6..28), filt(), filt(), any::<bool>(), any::<bool>(), 0u8..3).prop_map(|(mut frames, df_filter, ac_filter, via_config, with_file, split)| {
+    (proptest::collection::vec(case(), 6..28), filt(), filt(), any::<bool>(), any::<bool>(), 0u8..3, prop_oneof![5 => Just(1u8), 1 => 9u8..=13], prop_oneof![3 => Just(false), 1 => Just(true)]).prop_map(|(mut frames, df_filter, ac_filter, via_config, with_file, split, sources, quiet)| {
         // distinct frames only: a repeated frame would be merged or not by the deduplication depending on timing
         let mut seen = std::collections::BTreeSet::new();
         frames.retain(|f| seen.insert(frame_of(f)));
@@ -295,11 +335,13 @@ fn e2e_case() -> impl Strategy<Value = E2eCase> {
         frames.retain(|f| seen.insert(frame_of(f)));
         // the four addresses the end-to-end engine uses for its own marker frames stay out of the scenario
         for f in frames.iter_mut() {
-            if (crate::e2e::MARKER_ADDR..crate::e2e::MARKER_ADDR + 4).contains(&f.addr) {
-                f.addr ^= 0x8;
+            if (crate::e2e::MARKER_ADDR..crate::e2e::MARKER_ADDR + crate::e2e::MARKERS).contains(&f.addr) {
+                f.addr ^= 0x80;
             }
         }
-        E2eCase { frames, df_filter, ac_filter, via_config, with_file, split }
+        // long lists cannot go on a command line comfortably; keep them to the configuration file
+        let via_config = via_config || df_filter.as_ref().map(|l| l.len() > 12).unwrap_or(false) || ac_filter.as_ref().map(|l| l.len() > 12).unwrap_or(false);
+        E2eCase { frames, df_filter, ac_filter, via_config, with_file, split, sources, quiet }
     })
 }
 
@@ -322,7 +364,7 @@ fn case() -> impl Strategy<Value = Case> {
 }
 
 pub fn run(ctx: &Ctx) {
-    ctx.set_rule("for each DF in {0,4,5,11,16,17,18,20,21}: a decodable frame with generated address and payload; df filter and aircraft filter each in {absent, empty, [own value], [other values], [others with the own value at any position], lists of up to 48 entries} (other df values include numbers no format has: 32, 33, 99, 255, 1000; other addresses are one bit / one byte in any position / an offset away, 000000, ffffff); every single-byte neighbour of the address as the only entry, the own value at every position of lists of 1-64 entries, built as structs or through TOML like the repository test; also records whose decoding failed. Oracle: Filters::is_in == (df filter absent or empty or contains the JSON df) and (aircraft filter absent or empty or contains the JSON icao24), where the JSON is serde_json::to_value(&TimedMessage); undecoded => false. Non-trivial = configuration in which exactly one filter is non-empty; distinct by hash. Plus the full cross product of DF x 5 x 5 filter shapes x struct/TOML. End to end: batches of 6-27 distinct frames (every address-carrying DF, shared addresses / DFs, frames that do not decode) are served to the real jet1090 binary as a Beast TCP source with the filters given on the command line, in a configuration file (the only way to write an empty list) or one in each; its stdout, its --output file and the stored history served by /track must contain exactly the records whose shown df / icao24 pass (completion is detected through the /all endpoint, scenarios that cannot be completed are skipped and counted).");
+    ctx.set_rule("for each DF in {0,4,5,11,16,17,18,20,21}: a decodable frame with generated address and payload; df filter and aircraft filter each in {absent, empty, [own value], [other values], [others with the own value at any position], lists of up to 48 entries} (other df values include numbers no format has: 32, 33, 99, 255, 1000; other addresses are one bit / one byte in any position / an offset away, 000000, ffffff); every single-byte neighbour of the address as the only entry, the own value at every position of lists of 1-64 entries, built as structs or through TOML like the repository test; also records whose decoding failed. Oracle: Filters::is_in == (df filter absent or empty or contains the JSON df) and (aircraft filter absent or empty or contains the JSON icao24), where the JSON is serde_json::to_value(&TimedMessage); undecoded => false. Non-trivial = configuration in which exactly one filter is non-empty; distinct by hash. Plus the full cross product of DF x 5 x 5 filter shapes x struct/TOML. End to end: batches of 6-27 distinct frames (every address-carrying DF, shared addresses / DFs, frames that do not decode) are served to the real jet1090 binary as a Beast TCP source with the filters given on the command line, in a configuration file (the only way to write an empty list) or one in each; its stdout, its --output file and the stored history served by /track must contain exactly the records whose shown df / icao24 pass; a quarter of the scenarios run without --verbose (only /track is judged), a sixth are heard by 9-13 receivers at once (completion is detected through the /all endpoint, scenarios that cannot be completed are skipped and counted).");
     ctx.assume("what the record 'displays' is the df / icao24 of its JSON serialisation");
     // full cross product of shapes for every DF
     let shapes: Vec<Option<Vec<u16>>> = vec![None, Some(vec![]), Some(vec![0]), Some(vec![7]), Some(vec![9, 0, 3])];
